@@ -3,6 +3,7 @@ pub mod capture;
 pub mod cli;
 pub mod corpus;
 pub mod external;
+pub mod fuzzbody;
 pub mod gen;
 pub mod imp;
 pub mod model;
